@@ -375,6 +375,15 @@ def execute(p: Dict[str, Any]) -> Dict[str, Any]:
     if _fp(tree) != snapshot:
         bad("purity:input-mutated", "validate_config changed its argument: %s" % _show(tree, text))
     stats["accepted" if verdict["ok"] else "rejected"] = 1
+    if verdict["ok"] and isinstance(norm, dict):
+        # what the validator returns is "a normalised configuration": it is itself acceptable (it obeys the validator's
+        # own range rules)
+        try:
+            V.validate_config(copy.deepcopy(norm))  # (that normalising twice changes nothing is NOT demanded: the property does not say so)
+        except ConfigError as e:
+            bad("normal-form:rejected", "the normal form of an accepted configuration is rejected: %s ; input %s" % (str(e)[:200], _show(tree, text)))
+        except Exception as e:  # noqa: BLE001
+            bad("normal-form:raised:%s" % _classify_exc(e), "%r; input %s" % (str(e)[:200], _show(tree, text)))
     # ---- API variants ----
     try:
         ok2, errs2, cfg2 = V.validate_config_api(copy.deepcopy(tree))
